@@ -476,7 +476,7 @@ def parse_route_path( route_path, trailer_parser=None ):
             if route_path and isinstance( route_path, dict ):
                 # a dict; validate as eg. [{"port":<int>,"link":<int>/"<ip>"}]
                 route_path	= [route_path]
-            assert isinstance( route_path, list ), \
+            assert not route_path or isinstance( route_path, list ), \
                 "route_path invalid; must resolve to list, not: %r" % ( route_path, )
         except Exception as exc:
             # Handle multiple route_path strings like: "1/0/2/1.2.3.4", by splitting on even '/'.
